@@ -502,6 +502,27 @@ func r014(c *Ctx) {
 				return wasAdding && succT
 			}
 			licensed := func(at ssa.Instruction) bool { return licensedOf(at, dominatingConds(at.Block())) }
+			succTOf := func(at ssa.Instruction, conds []condEdge) bool {
+				for _, p := range outer(at.Parent()).Params {
+					if p.Name() == "success" {
+						t, _ := boolFactsOf(conds, matchResolved(p))
+						return t
+					}
+				}
+				return false
+			}
+			isStateIsAdding := func(v ssa.Value) bool {
+				bo, ok := v.(*ssa.BinOp)
+				if !ok || bo.Op != token.EQL {
+					return false
+				}
+				for _, pr := range [][2]ssa.Value{{bo.X, bo.Y}, {bo.Y, bo.X}} {
+					if k, isK := constInt(pr[1]); isK && k == adding && (isLoadOfField(pr[0], stateF) || isLoadOfField(resolve(pr[0]), stateF)) {
+						return true
+					}
+				}
+				return false
+			}
 			ok = licensed(cs.instr)
 			how := "directly under success==true and state==adding"
 			if !ok {
@@ -519,6 +540,9 @@ func r014(c *Ctx) {
 							switch {
 							case isConst && !b:
 							case isConst && b && licensedOf(st, vc.conds):
+								nTrue++
+							case isStateIsAdding(vc.val) && succTOf(st, vc.conds):
+								// `flag = success && previous == adding`: true exactly under the licensing facts
 								nTrue++
 							default:
 								all = false
@@ -595,23 +619,56 @@ func r015(c *Ctx) {
 	}
 	nTrue := 0
 	for _, cs := range callsTo(fn, report) {
-		b, isConst := constBool(cs.common().Args[1])
-		if !isConst {
-			c.undecided(rule, "check/reportResult-arg", cs.pos(), "non-constant success argument (unrecognised form)")
-			continue
+		// the ways this call can report success, each with the conditions known on that way: a constant true, or
+		// `x == nil` for an error x that is a merge of nil / freshly made errors (an inlined "statusError(code)" helper)
+		type succCase struct{ conds []condEdge }
+		var trueCases []succCase
+		arg := cs.common().Args[1]
+		if b, isConst := constBool(arg); isConst {
+			if b {
+				trueCases = append(trueCases, succCase{dominatingConds(cs.instr.Block())})
+			}
+		} else {
+			decided := false
+			if bo, ok := arg.(*ssa.BinOp); ok && (bo.Op == token.EQL || bo.Op == token.NEQ) {
+				x := bo.X
+				if isNilConst(x) {
+					x = bo.Y
+				} else if !isNilConst(bo.Y) {
+					x = nil
+				}
+				if x != nil && isErrorType(x.Type()) {
+					decided = true
+					for _, vc := range valueCases(x, cs.instr.Block()) {
+						isNil, nonNil := isNilConst(vc.val), producesNonNilError(vc.val)
+						if !isNil && !nonNil {
+							isNil, nonNil = nilKnowledgeOf(vc.conds, sameAs(vc.val))
+						}
+						switch {
+						case isNil == nonNil:
+							decided = false
+						case isNil == (bo.Op == token.EQL):
+							trueCases = append(trueCases, succCase{vc.conds})
+						}
+					}
+				}
+			}
+			if !decided {
+				c.undecided(rule, "check/reportResult-arg", cs.pos(), "non-constant success argument (unrecognised form)")
+				continue
+			}
 		}
-		if !b {
-			continue
+		for _, tc := range trueCases {
+			nTrue++
+			isNil := false
+			if doErr != nil {
+				isNil, _ = nilKnowledgeOf(tc.conds, sameAs(doErr))
+			}
+			c.ob(rule, "check/success-requires-no-transport-error", cs.pos(), isNil, true, "reportResult(true) must be on the nil-error branch of http.Client.Do")
+			lo, hi, _ := interval(intFactsOf(tc.conds, isStatus))
+			c.ob(rule, "check/success-status-interval", cs.pos(), lo == 200 && hi == 299, true,
+				fmt.Sprintf("status codes for which success is reported: [%s,%s]; must be exactly [200,299]", boundStr(lo), boundStr(hi)))
 		}
-		nTrue++
-		isNil := false
-		if doErr != nil {
-			isNil, _ = nilKnowledge(cs.instr, sameAs(doErr))
-		}
-		c.ob(rule, "check/success-requires-no-transport-error", cs.pos(), isNil, true, "reportResult(true) must be on the nil-error branch of http.Client.Do")
-		lo, hi, _ := interval(intFacts(cs.instr, isStatus))
-		c.ob(rule, "check/success-status-interval", cs.pos(), lo == 200 && hi == 299, true,
-			fmt.Sprintf("status codes for which success is reported: [%s,%s]; must be exactly [200,299]", boundStr(lo), boundStr(hi)))
 	}
 	c.ob(rule, "check/reports-success-somewhere", fn.Pos(), nTrue >= 1, false, "")
 	// the configured probe timeout / interval reach the right slots
@@ -662,6 +719,33 @@ func (c *Ctx) argsFromFields(rule string, callee *ssa.Function, want map[string]
 			if len(chain) > 0 {
 				got = chain[len(chain)-1].Name()
 			}
+			// passed through unchanged by a function that receives it under the field's name and whose own callers feed
+			// that parameter from the field (one constructor building on another)
+			if pp, isParam := resolve(call.Common().Args[i]).(*ssa.Parameter); isParam && got != fieldName {
+				encl := outer(u.in)
+				if w, subject := want[pp.Name()]; subject && w == fieldName && pp.Parent() == encl && encl != callee {
+					through, nUp := true, 0
+					for _, up := range c.usesOfFunc(encl) {
+						uc, ok := up.instr.(ssa.CallInstruction)
+						if !ok || up.kind == "value" {
+							through = false
+							continue
+						}
+						nUp++
+						for j, ep := range encl.Params {
+							if ep == pp {
+								ch, _ := fieldPath(resolve(uc.Common().Args[j]))
+								if len(ch) == 0 || ch[len(ch)-1].Name() != fieldName {
+									through = false
+								}
+							}
+						}
+					}
+					if through && nUp >= 1 {
+						got = fieldName
+					}
+				}
+			}
 			c.ob(rule, fmt.Sprintf("%s(%s:) in %s", callee.Name(), p.Name(), fname(outer(u.in))), u.instr.Pos(), got == fieldName, true,
 				fmt.Sprintf("parameter %q must be fed from field %q, got %q", p.Name(), fieldName, got))
 		}
@@ -681,6 +765,29 @@ func (c *Ctx) paramsToFields(rule string, fn *ssa.Function, typ string, want map
 			for _, p := range fn.Params {
 				if p.Name() == param && resolve(w.val) == ssa.Value(p) {
 					ok = true
+				}
+			}
+		}
+		// ... or hands the parameter to another constructor that stores its like-named parameter in the field
+		if !ok {
+			for _, cs := range callsIn(fn) {
+				g := cs.common().StaticCallee()
+				if g == nil || g == fn || g.Blocks == nil {
+					continue
+				}
+				for j, gp := range g.Params {
+					if gp.Name() != param || j >= len(cs.common().Args) {
+						continue
+					}
+					pp, isParam := resolve(cs.common().Args[j]).(*ssa.Parameter)
+					if !isParam || pp.Parent() != fn || pp.Name() != param {
+						continue
+					}
+					for _, w := range c.writesOfField(fv) {
+						if w.fn == g && resolve(w.val) == ssa.Value(gp) {
+							ok = true
+						}
+					}
 				}
 			}
 		}
